@@ -104,6 +104,7 @@ structure PObj where
   rcvs : List Rcv
   done : Option Bool      -- `_completed` / `_success`
   cancelled : Bool        -- `publisher_removed`: a removal notice arrived while this *subscribe* request was pending
+  cur : ReqId             -- id of the request message that is currently outstanding for this object
   deriving DecidableEq, Repr
 
 /-- `pending_request.publisher_removed = True` if `b` -/
@@ -113,6 +114,7 @@ def PObj.cancelIf (po : PObj) (b : Bool) : PObj := if b then { po with cancelled
 @[simp] theorem PObj.cancelIf_sub (po : PObj) (b : Bool) : (po.cancelIf b).sub = po.sub := by cases b <;> rfl
 @[simp] theorem PObj.cancelIf_rcvs (po : PObj) (b : Bool) : (po.cancelIf b).rcvs = po.rcvs := by cases b <;> rfl
 @[simp] theorem PObj.cancelIf_done (po : PObj) (b : Bool) : (po.cancelIf b).done = po.done := by cases b <;> rfl
+@[simp] theorem PObj.cancelIf_cur (po : PObj) (b : Bool) : (po.cancelIf b).cur = po.cur := by cases b <;> rfl
 
 /-- callbacks queued on a context's event loop (`run_in_thread_arg`, `run_in_thread_wait`) -/
 inductive Cb
@@ -330,10 +332,11 @@ def progTag (l : List MOp) : OpTag :=
 /-- `_handle_subscription_reply` under the lock -/
 def handleReplyStep (cs : CtxSt) (id : ReqId) (ok : Bool) : Option (CtxSt × List MOp × Out) :=
   match cs.byId id with
-  | none => none                                   -- `.pop(request_id)` would raise KeyError
+  | none => some (cs, [], .tau "unknown-request")  -- `.pop(request_id)` raises KeyError: contained by the caller in the
+                                                   --   socket thread (`_process_message`, `_clear_pending_requests`)
   | some pid =>
     match cs.pobj pid with
-    | none => none
+    | none => some (cs, [], .tau "unknown-request")
     | some po =>
       if po.sub then
         -- a subscribe request completed: on success the waiting receivers become local subscribers; wake the waiters.
@@ -346,7 +349,7 @@ def handleReplyStep (cs : CtxSt) (id : ReqId) (ok : Bool) : Option (CtxSt × Lis
         -- an unsubscribe request completed while new subscribers are waiting: send a new subscribe request at once
         some ({ cs with byId := upd (upd cs.byId id none) cs.nextReq (some pid),
                         byKey := upd cs.byKey po.key (some pid),
-                        pobj := upd cs.pobj pid (some { po with sub := true }),
+                        pobj := upd cs.pobj pid (some { po with sub := true, cur := cs.nextReq }),
                         nextReq := cs.nextReq + 1 },
               [.sendChk po.key.pc (.subReq cs.nextReq po.key.ob po.key.sg true)], .req "resub" cs.nextReq)
       else
@@ -442,7 +445,7 @@ def microStep (s : State) (th : Th) (choice choice2 : Nat) (op : MOp) (rest : Li
               (.wait pid :: rest) (.req "sub-pending" pid)
       | none =>
         let id := cs.nextReq
-        fin { cs with pobj := upd cs.pobj id (some ⟨k, true, [r], none, false⟩),
+        fin { cs with pobj := upd cs.pobj id (some ⟨k, true, [r], none, false, id⟩),
                       byId := upd cs.byId id (some id), byKey := upd cs.byKey k (some id), nextReq := id + 1 }
             (.sendChk k.pc (.subReq id k.ob k.sg true) :: .wait id :: rest) (.req "sub-request" id)
   | .wait pid =>
@@ -463,7 +466,7 @@ def microStep (s : State) (th : Th) (choice choice2 : Nat) (op : MOp) (rest : Li
         | some _ => fin cs1 rest (.tau "unsub-last-pending")
         | none =>
           let id := cs.nextReq
-          fin { cs1 with pobj := upd cs.pobj id (some ⟨k, false, [], none, false⟩),
+          fin { cs1 with pobj := upd cs.pobj id (some ⟨k, false, [], none, false, id⟩),
                          byId := upd cs.byId id (some id), byKey := upd cs.byKey k (some id), nextReq := id + 1 }
               (.sendChk k.pc (.subReq id k.ob k.sg false) :: rest) (.req "unsub-request" id)
   | .handleReply id ok =>
